@@ -674,7 +674,8 @@ impl Instance {
             });
             if rrx.blocking_recv().is_err() {
                 let _ = jh.join();
-                eprintln!("daemon start attempt {attempt} failed (port {port}); retrying");
+                let panics: Vec<String> = PANICS.lock().map(|p| p.clone()).unwrap_or_default();
+                eprintln!("daemon start attempt {attempt} failed (port {port}; panics recorded: {panics:?}); retrying");
                 continue;
             }
             let inst = Instance {
